@@ -401,6 +401,82 @@ func (r *coreRun) snapshotOf(name string, what string, allowExtra []int) {
 			r.violate("snapshot-mismatch", what+": view after loading the snapshot differs", savedView, v)
 		}
 	}
+	if len(allowExtra) == 0 {
+		r.staleSnapshot(name, what, len(saved.listing))
+	}
+}
+
+// staleSnapshot: the snapshot route when the store already holds more than the snapshot. A second fresh instance
+// loads its log from the cache, writes one more entry, and only then loads the (now older) snapshot: the entries
+// it holds are the saved ones plus its write, and what it shows must be their replay - the write included.
+func (r *coreRun) staleSnapshot(name, what string, nsaved int) {
+	ctx := context.Background()
+	p := r.c.nodes[name].P
+	q := p.CloneDurable(p.EffectCount())
+	node, err := q.Start("")
+	if err != nil {
+		return
+	}
+	defer node.Close()
+	ref, err := node.Open(r.c.addr, realType(r.in.Type), &orbitdb.CreateDBOptions{Timeout: 3 * time.Second})
+	if err != nil {
+		return
+	}
+	if err := ref.S.Load(ctx, -1); err != nil || ref.S.OpLog().Len() != nsaved {
+		return
+	}
+	const mark2 = "after-the-snapshot"
+	var werr error
+	switch r.in.Type {
+	case "kv":
+		_, werr = ref.S.(orbitdb.KeyValueStore).Put(ctx, mark2, []byte(mark2))
+	case "doc":
+		_, werr = ref.S.(orbitdb.DocumentStore).Put(ctx, map[string]interface{}{"_id": mark2, "abs": mark2})
+	default:
+		_, werr = ref.S.(orbitdb.EventLogStore).Add(ctx, []byte(mark2))
+	}
+	if werr != nil {
+		return // this replica's identity is not a writer
+	}
+	loaded := make(chan error, 1)
+	go func() { loaded <- ref.S.LoadFromSnapshot(ctx) }()
+	select {
+	case err = <-loaded:
+	case <-time.After(10 * time.Second):
+		r.violate("snapshot-silent", what+": LoadFromSnapshot on a store that already holds the log never returns", nil, nil)
+		return
+	}
+	if err != nil {
+		r.res.note("%s: %s: LoadFromSnapshot on a loaded store: %v", r.bid, what, err)
+		return
+	}
+	_ = sim.Settle(5*time.Second, node)
+	r.res.Comparisons++
+	r.res.Stats["stale_snapshots"]++
+	kind := "snapshot-mismatch"
+	if r.in.Property == "C01" {
+		kind = "convergence"
+	}
+	if got := ref.S.OpLog().Len(); got != nsaved+1 {
+		r.violate(kind, fmt.Sprintf("%s: a store holding %d entries loaded a snapshot of %d of them and now holds %d", what, nsaved+1, nsaved, got), nsaved+1, got)
+		return
+	}
+	shown := false
+	switch r.in.Type {
+	case "kv":
+		v, _ := ref.S.(orbitdb.KeyValueStore).Get(ctx, mark2)
+		shown = string(v) == mark2
+	case "doc":
+		d, _ := ref.S.(orbitdb.DocumentStore).Get(ctx, mark2, nil)
+		shown = len(d) == 1
+	default:
+		all := -1
+		ops, _ := ref.S.(orbitdb.EventLogStore).List(ctx, &iface.StreamOptions{Amount: &all})
+		shown = len(ops) == nsaved+1 && string(ops[len(ops)-1].GetValue()) == mark2
+	}
+	if !shown {
+		r.violate(kind, what+": a store that held the whole log and one more write loaded an older snapshot; it holds the same entries as before and no longer shows the write (state depends on the route, not on the entries)", nil, nil)
+	}
 }
 
 func (r *coreRun) snapshots() {
